@@ -157,7 +157,7 @@ pub open spec fn repr(d: AuthorizationItem, c: ComputedAuthorizationItem) -> boo
     &&& forall|k: String| c.privileges@.contains_key(k) ==> #[trigger] c.privileges@[k] == l.privileges[last_priv(l.privileges, k)]
     &&& forall|k: String| #[trigger] c.identities@.contains_key(k) <==> last_ident(l.identities, k) >= 0
     &&& forall|k: String| c.identities@.contains_key(k) ==> #[trigger] c.identities@[k] == l.identities[last_ident(l.identities, k)]
-    &&& forall|pn: String, idn: String| (c.privilegeAssignments@.contains_key(pn) && #[trigger] c.privilegeAssignments@[pn]@.contains(idn)) <==> granted_doc(l, pn, idn)
+    &&& forall|pn: String, idn: String| #[trigger] tbl_row(c.privilegeAssignments@, pn, idn) <==> granted_doc(l, pn, idn)
 }
 
 proof fn lits_modes()
